@@ -20,6 +20,8 @@ EXTRA = {  # additional checks expected to notice a change that was written agai
     'C03-h': ['C02'], 'C12-g': ['C03'],
     'C02-i': ['C03'], 'C01-i': ['C20'], 'C03-j': ['C02'], 'C04-j': ['C12'], 'C05-i': ['C02'], 'C05-j': ['C04'], 'C12-i': ['C11'],
     'C15-j': ['C08'], 'C18-j': ['C01'],
+    'C02-k': ['C10'], 'C02-l': ['C08'], 'C08-l': ['C18'], 'C04-k': ['C05'], 'C04-l': ['C05'], 'C18-l': ['C11'], 'C05-k': ['C11'],
+    'C05-l': ['C02'], 'C07-k': ['C11'], 'C07-l': ['C01'], 'C10-k': ['C15'], 'C12-k': ['C08'],
 }
 
 
